@@ -1021,7 +1021,10 @@ static void _GD_FlushFragment(DIRFILE* D, int i, int permissive)
 
   /* Frame offset */
   if (permissive || D->standards >= 1)
-    if (D->fragment[i].frame_offset != 0)
+    /* an included fragment always spells its offset out, even when zero:
+     * otherwise it would inherit whatever offset its parent has when the
+     * dirfile is next parsed */
+    if (D->fragment[i].frame_offset != 0 || i > 0)
       if (fprintf(stream, "%sFRAMEOFFSET %" PRIu64 "\n",
             (D->standards >= 5) ? "/" : "", D->fragment[i].frame_offset) < 0)
       {
